@@ -40,6 +40,10 @@ RULE = ("static: one obligation per estimator class (frame analysis) and per pub
         "profile / score / filter (tiny and normal data sets), refits whose first data set is tiny (3-4 points: fewer than k, forces, "
         "polynomial terms), clone of a fitted estimator vs fresh, Vector / Chain / SplineCV called before fit with fresh and with "
         "individually pre-fitted components, clone / get_params / set_params round trips, predict-like calls on unfitted instances, every public function "
+        "everything with a random_state (BlockShuffleSplit, BlockKFold, train_test_split plain and blocked, scatter_points, gridder scatter, "
+        "cross_val_score / SplineCV with a randomised cv) over n_splits 1/2/5 x balancing 1/2/10 x int/float/None sizes x shuffle/balance x seeds, twice on "
+        "one object and on two identically configured objects; every way a fit / filter / score / grid is rejected, on unfitted and fitted "
+        "estimators: all attributes incl. get_params unchanged and the next valid fit identical to a fresh estimator's; "
         "and estimator method with argument bytes hashed before/after (writable and read-only arrays) and called twice. "
         "Non-trivial = the call is expected to succeed or is a single-fault rejection; distinct = distinct (entry, arguments).")
 ASSUMPTIONS = [
@@ -59,7 +63,7 @@ ASSUMPTIONS = [
     "shape) resp. with tolerance 2^-40 x max(1, |value|) and enter Coq as booleans (mk_verdict true <holds>): coqc only tallies them",
     "static obligations enter the case list as mk_verdict <compiled> true: a failed obligation is a broken tie with no failing input",
 ]
-TRUSTED = ["harness/c20.py, harness/c20_positions.py (incl. the frozen table of what the unchanged code rejects for callables without an explicit shape check), harness/translate_frames.py, harness/translate_effects.py (ast translators: the classification tables of "
+TRUSTED = ["harness/c20.py, harness/c20_repeat.py, harness/c20_positions.py (incl. the frozen table of what the unchanged code rejects for callables without an explicit shape check), harness/translate_frames.py, harness/translate_effects.py (ast translators: the classification tables of "
            "library calls, the call expansion with callee summaries, SSA versioning)"]
 
 _extra = {}
@@ -1164,6 +1168,9 @@ def generate(tier, seed):
     cases += _history(vd, rnd, tier)
     cases += _history_same_bbox(vd, rnd, tier)
     cases += _history_params(vd, rnd, tier)
+    from . import c20_repeat
+    cases += c20_repeat.random_state_cases(vd, rnd, tier)
+    cases += c20_repeat.no_trace_cases(vd, rnd, tier, _extra)
     cases += _purity(vd, rnd, tier)
     return cases
 
@@ -1179,6 +1186,9 @@ def search(disagreeing, tier, seed):
             from . import c20_positions
             out += c20_positions.generate(vd, rnd, "thorough", {})
             out += _malformed(vd, rnd, "thorough")
+            from . import c20_repeat
+            out += c20_repeat.random_state_cases(vd, rnd, "thorough")
+            out += c20_repeat.no_trace_cases(vd, rnd, "thorough", {})
         out += _history_same_bbox(vd, rnd, "thorough")
         out += _history_params(vd, rnd, "thorough")
         out += _history(vd, rnd, "thorough")
